@@ -68,6 +68,7 @@ partial def opOfJson (op : Json) : Op :=
   | "constant" => .constant (splitDot (jstr (jfield op "name"))) (jbool (jfield op "nameValid"))
       (valOfJson (jfield op "val"))
   | "interactive" => .interactive (jbool (jfield op "on"))
+  | "macrolookup" => .macroLookup (jstr (jfield op "name"))
   | "singleton" => .singleton (jstr (jfield op "key")) (jbool (jfield op "ctor"))
   | "enter" => .enter (jstrs (jfield op "cur")) (scopeArgOfJson (jfield op "arg"))
   | "unlock" => .unlock ((jarr (jfield op "body")).map opOfJson) (jbool (jfield op "raises"))
